@@ -56,6 +56,7 @@ RULE = ("cases = corpus + every max_cycles in 0..64 on a counter, a toggle and a
         "+ N/15 knowledge-base replacement histories shared with C02 (*knowledge_base_mut() = a freshly built base with the same / a smaller / "
         "a larger version() and more / as many / fewer rules, after an execute and after edits that raised the old version counter; every rule "
         "of the new base takes part in the next call). "
+        "+ N/20, N/20, N/40 cases of the families shared by C02 and C03 (c02.rs): several-pending-activations histories (2..4 activate_agenda_group calls — same group, different groups, MAIN — interleaved with set_agenda_focus / pop / clear before each execute, rules with true and false conditions in every group: every queued activation is applied before the first pass); caller-owned undo frames (ops Ub / Uc / Ur = facts.begin_undo_frame / commit_undo_frame / rollback_undo_frame around the execute calls, nested, left open, unbalanced; rules that write flat keys, dotted paths of the existing object o0 (O.0 / O.2 -> Facts::set_nested) and of a missing object (O.1): every call returns under the per-case deadline, after a rollback the facts are those observed at the matching begin — clauses rollback_not_restored / frame_call_changed_facts, and the harness compares the complete fact map incl. nested objects: res u!undo); confusable-names histories (agenda groups, activation groups and rule names reach the engine through name tables whose small ids are easy to confuse as strings: prefix relations through / . : blank, the empty string, a group named like a rule, look-alikes of MAIN, case / trailing-blank twins — all distinct names, injectivity asserted at start-up; lock-on-active / no-loop rules in 2..4 such groups, activate one, execute, focus another, come back by pop or by a new activation, execute). "
         "The three execute entry points (execute_at_time, execute_with_callback, plain execute) are drawn in every history family. Every case "
         "runs in a thread with a 5 s deadline (a call that does not return is observed as `hang`). Observations: GruleExecutionResult "
         "{cycle_count, rules_evaluated, rules_fired}, the callback/marker firing sequence, facts and active group after each call; diffed "
